@@ -303,7 +303,85 @@ func init() {
 			return e.KB(unicode.IsUpper(rune(t.C)))
 		},
 		"io.Copy": stubIOCopy,
+
+		// ---- sync: the engine runs one goroutine; locks are no-ops, Once and Map are
+		// modelled on ordinary cells (so that stores to a package-level Once/Map are seen
+		// by the shared-state monitor)
+		"(*sync.Mutex).Lock":      func(e *Engine, fn *ssa.Function, a []Val) Val { return nil },
+		"(*sync.Mutex).Unlock":    func(e *Engine, fn *ssa.Function, a []Val) Val { return nil },
+		"(*sync.Mutex).TryLock":   func(e *Engine, fn *ssa.Function, a []Val) Val { return e.KB(true) },
+		"(*sync.RWMutex).Lock":    func(e *Engine, fn *ssa.Function, a []Val) Val { return nil },
+		"(*sync.RWMutex).Unlock":  func(e *Engine, fn *ssa.Function, a []Val) Val { return nil },
+		"(*sync.RWMutex).RLock":   func(e *Engine, fn *ssa.Function, a []Val) Val { return nil },
+		"(*sync.RWMutex).RUnlock": func(e *Engine, fn *ssa.Function, a []Val) Val { return nil },
+		"(*sync.Once).Do": func(e *Engine, fn *ssa.Function, a []Val) Val {
+			c := e.resolve(a[0].(Ptr), "sync.Once")
+			flag := syncFlagCell(e, c)
+			if t, ok := flag.val.(*Term); ok && t.IsConst() && t.C == 1 {
+				return nil
+			}
+			e.store(flag, e.KB(true))
+			e.callValue(a[1], nil)
+			return nil
+		},
+		"(*sync.Map).Load": func(e *Engine, fn *ssa.Function, a []Val) Val {
+			m := syncMapOf(e, a[0].(Ptr), false)
+			if v, ok := e.mapLookup(m, a[1]); ok {
+				return Tuple{v, e.KB(true)}
+			}
+			return Tuple{Iface{}, e.KB(false)}
+		},
+		"(*sync.Map).Store": func(e *Engine, fn *ssa.Function, a []Val) Val {
+			e.mapUpdate(syncMapOf(e, a[0].(Ptr), true), a[1], a[2])
+			return nil
+		},
+		"(*sync.Map).LoadOrStore": func(e *Engine, fn *ssa.Function, a []Val) Val {
+			m := syncMapOf(e, a[0].(Ptr), true)
+			if v, ok := e.mapLookup(m, a[1]); ok {
+				return Tuple{v, e.KB(true)}
+			}
+			e.mapUpdate(m, a[1], a[2])
+			return Tuple{a[2], e.KB(false)}
+		},
+		"(*sync.Map).Delete": func(e *Engine, fn *ssa.Function, a []Val) Val {
+			m := syncMapOf(e, a[0].(Ptr), true)
+			for i := range m.keys {
+				if e.decide(e.valEq(m.keys[i], a[1])) {
+					e.touchMap(m)
+					m.keys = append(append([]Val{}, m.keys[:i]...), m.keys[i+1:]...)
+					m.vals = append(append([]Val{}, m.vals[:i]...), m.vals[i+1:]...)
+					break
+				}
+			}
+			return nil
+		},
 	}
+}
+
+// syncFlagCell / syncMapOf keep the state of a sync.Once / sync.Map in side cells
+// attached to the object (created with the object's epoch, so state of a
+// package-level object counts as package-level state).
+func syncFlagCell(e *Engine, c *Cell) *Cell {
+	if f, ok := e.syncSide[c]; ok {
+		return f
+	}
+	f := &Cell{typ: types.Typ[types.Bool], val: e.KB(false), epoch: c.epoch, seq: c.seq}
+	e.syncSide[c] = f
+	return f
+}
+
+func syncMapOf(e *Engine, p Ptr, write bool) *MapObj {
+	c := e.resolve(p, "sync.Map")
+	side := syncFlagCell(e, c)
+	m, ok := side.val.(*MapObj)
+	if !ok {
+		m = &MapObj{epoch: c.epoch}
+		side.val = m
+	}
+	if write && e.goPhase > 0 && e.shared(c) {
+		e.path.noteConflict("sync.Map written by a pipeline in " + e.curFuncName())
+	}
+	return m
 }
 
 // strconv.ParseFloat: the syntax check is modelled by rt.FloatSyntax (Go code,
